@@ -179,6 +179,8 @@ impl Core {
       _ => (),
     }
     let cycles_consumed = MachineCycles(self.registers.get_consumed_cycles());
+    #[cfg(gb_dynarec_verif)]
+    crate::mem::verif::cpu(cycles_consumed.as_usize());
     self.last_block_cycle_length = cycles_consumed.as_usize();
     // catch up memmapped devices
     self.memory.run_clock_cycles(cycles_consumed.to_clock_cycles());
@@ -228,6 +230,8 @@ impl Core {
       _ => (),
     }
     let cycles_consumed = MachineCycles(self.registers.get_consumed_cycles());
+    #[cfg(gb_dynarec_verif)]
+    crate::mem::verif::cpu(cycles_consumed.as_usize());
     self.memory.run_clock_cycles(cycles_consumed.to_clock_cycles());
     self.handle_interrupt();
   }
